@@ -664,7 +664,14 @@ def drv_select(case):
     import puan, puan.ndarray as pnd
     from . import solvers
     m = _mk(case)
-    if not _valid(m): return []
+    if proj.is_var(m): return []            # the domain (well defined, consistent tags) is decided by TLC on the projection
+    if m.errors():
+        # a model the library's own validation rejects may make the library raise: that is not recorded (TLC still decides
+        # the domain of every recorded event; models with one definition under two classes are rejected by errors() but well defined)
+        try:
+            m.ge_polyhedron
+        except BaseException:
+            return []
     tok = proj.Tok()
     pm = proj.node(m, tok)
     out = []
@@ -688,7 +695,14 @@ def drv_select(case):
             if called and mode != "raise":
                 for sol in s.calls[0].get("answers", []):
                     returned.append({"none": sol[0] is None, "x": [proj.I(v) for v in sol[0]] if sol[0] is not None else []})
-            enum = _box_of_cols(rc["cols"]) <= (1 << 9) if called else False
+            enum = False
+            if called and _box_of_cols(rc["cols"]) <= (1 << 10):
+                # all-pairs ranking is quadratic in the number of feasible points: enumerate only while there are few
+                import itertools, numpy
+                P0 = s.calls[0]["polyhedron"]
+                A_, b_ = numpy.asarray(P0.A), numpy.asarray(P0.b)
+                pts_ = numpy.array(list(itertools.product(*[range(c["lo"], c["hi"] + 1) for c in rc["cols"]])), dtype=numpy.int64).reshape(-1, len(rc["cols"]))
+                enum = int(((pts_ @ A_.T >= b_).all(axis=1)).sum()) <= 120
             out.append({"op": "select", "recipe": B.recipe_tokens(case["recipe"], tok), "model": pm,
                         "prios": [[[tok(k), proj.I(v)] for k, v in p.items()] for p in prios], "solver": mode, "only_leafs": only_leafs,
                         "called": called, "received": rc, "direct": {"rows": direct["rows"], "cols": direct["cols"], "dpv": direct["dpv"]},
@@ -735,6 +749,8 @@ def drv_solve(case):
 # ============================================================================= call histories (C09, C18)
 import hashlib as _hashlib
 
+STATE_OPS = ("evaluate", "evaluate_all", "assume", "reduce", "negate", "errors", "flags", "flatten", "to_poly")
+
 def _abs_call(obj, op, d, rule, tok, case):
     """performs one public call on obj; returns (abstract result JSON-able, new object or None)"""
     import puan, puan.logic.plog as pg
@@ -764,6 +780,13 @@ def _abs_call(obj, op, d, rule, tok, case):
         return r, None
     if op == "flatten":
         return [[tok(x.id), proj.bounds(x.bounds)] for x in obj.flatten()], None
+    if op == "flags":
+        out = []
+        for x in obj.flatten():
+            if proj.is_var(x): continue
+            eb = x.equation_bounds
+            out.append([tok(x.id), bool(x.is_tautology), bool(x.is_contradiction), [proj.I(eb[0]), proj.I(eb[1])]])
+        return out, None
     if op == "cfg_poly":
         return proj.cfgpoly(obj.ge_polyhedron, tok), None
     if op == "default_prios":
@@ -830,6 +853,7 @@ def drv_history(case):
     store = {h: B.build(r) for h, r in case["handles"].items()}
     steps = []
     ghosts = 0
+    initial = {h: proj.node(v, tok) for h, v in store.items()}
     for k, c in enumerate(case["calls"]):
         h, op = c["h"], c["op"]
         obj = store[h]
@@ -841,10 +865,25 @@ def drv_history(case):
             raise
         except BaseException as ex:       # recorded as the call's result (a call on an object a known deviation has changed may fail)
             res, new = {"raised": type(ex).__name__}, None
+        # the same call on a freshly built object that has the handle's CURRENT projected definition (only needed, and only
+        # compared, when the handle's state differs from what its recipe denotes, i.e. after a known deviation)
+        step_state = None
+        bnode = dict(before)[h]
+        if op in STATE_OPS and bnode != initial.get(h):
+            try:
+                rebuilt = B.from_node(bnode, tok)
+                step_state = _abs_call(rebuilt, op, c.get("d"), None, tok, case)[0]
+            except (KeyboardInterrupt, SystemExit):
+                raise
+            except BaseException as ex:
+                step_state = {"raised": type(ex).__name__}
         hooks = [{"id": tok(f["id"]), "new": [proj.I(f["new"][0]), proj.I(f["new"][1])]} for kind, f in puan._verif.events if kind == "assume_overwrite"]
         del puan._verif.events[:]
         step = {"h": h, "op": op, "dict": [[tok(k), [int(v[0]), int(v[1])]] for k, v in (c.get("d") or {}).items()],
-                "before": before, "res": res, "res_fresh": case["refs"][k], "hooks": hooks}
+                "before": before, "res": res, "res_fresh": case["refs"][k], "hooks": hooks,
+                "has_state": step_state is not None, "res_state": step_state if step_state is not None else 0,
+                "res_is_node": op in ("assume", "reduce", "negate") and isinstance(res, dict) and "k" in res
+                               and isinstance(step_state, dict) and "k" in step_state}
         step["raised"] = isinstance(res, dict) and "raised" in res
         if op == "add":
             step["refused"] = False
@@ -856,6 +895,7 @@ def drv_history(case):
                 ghosts += 1
                 store["%s_old%d" % (h, ghosts)] = obj       # the old configurator stays alive and observed
                 store[h] = new
+                initial[h] = proj.node(new, tok)
         step["after"] = [[k, proj.node(v, tok)] for k, v in store.items() if k in dict(before)]
         steps.append(step)
     return [{"op": "history", "steps": steps, "handles": sorted(case["handles"])}]
